@@ -99,11 +99,11 @@ def hinted(r):
         return float(n)
     m = n + r.choice([0, 0, 0, 1, -1])
     if 0 <= m <= 20000:
-        if k in (4, 5):
-            return "x" * m
+        if k in (4, 5) or m > 600:
+            return "x" * m              # strings may be long; collections stay small enough for every campaign
         if k == 6:
-            return [0] * m if m <= 5000 else "x" * m
-        return dict(("k%d" % i, 0) for i in range(m)) if m <= 3000 else [0] * min(m, 5000)
+            return [0] * m
+        return dict(("k%d" % i, 0) for i in range(m))
     return n
 
 
